@@ -112,6 +112,10 @@ func tthammer(args []string) {
 							ply = 250 + gr.Intn(12)
 						case 1:
 							ply = []int{511, 512, 1023, 1025, 4096, 11800}[gr.Intn(6)] + gr.Intn(3)
+						case 2, 3:
+							// different (ply, depth) of equal replacement value ply + 2*depth
+							pd := [][2]int{{4, 0}, {2, 1}, {0, 2}, {6, 0}, {4, 1}, {2, 2}}[gr.Intn(6)]
+							ply, depth = pd[0], pd[1]
 						}
 						score := eval.HeuristicScore(eval.Pawns(tag))
 						if tag%5 == 0 {
